@@ -161,13 +161,32 @@ def make_map(g, name='m', use_latlon=False):
     return InMemMap(name, use_latlon=use_latlon, use_rtree=False, graph=copy.deepcopy(g))
 
 
-def make_matcher(mp, cfg):
+def make_matcher(mp, cfg, warmup=None):
+    """warmup: another trace that is matched first on the same matcher object (a matcher may be reused: `match` without
+    `expand` starts afresh, so nothing of the earlier trace may show in the results of the next one)"""
     from leuvenmapmatching.matcher.simple import SimpleMatcher
     from leuvenmapmatching.matcher.distance import DistanceMatcher
     kw = {k: v for k, v in cfg.items() if k != 'family' and v is not None or k in ('max_lattice_width',)}
     kw = {k: v for k, v in kw.items() if not (v is None and k != 'max_lattice_width')}
     cls = SimpleMatcher if cfg['family'] == 'simple' else DistanceMatcher
-    return cls(mp, **kw)
+    mt = cls(mp, **kw)
+    if warmup:
+        try:
+            mt.match(list(warmup))
+        except Exception:
+            pass            # totality is C17's business
+    return mt
+
+
+def gen_warmup(case):
+    """for one case in five: a second trace on the same map (deterministic in the case, drawn from its own stream so that
+    the case itself is unchanged)"""
+    import zlib
+    r2 = random.Random(zlib.crc32(repr((sorted(map(str, case['graph'])), case['trace'])).encode()))
+    if r2.random() >= 0.2:
+        return None
+    n = max(len(case['trace']), r2.choice([2, 3, 5]))
+    return gen_trace(r2, case['graph'], n=n)
 
 
 def gen_laps_case(rnd):
@@ -200,7 +219,11 @@ def gen_case(rnd, **kw):
     tr = gen_trace(rnd, g, n=kw.get('trace_len'), kind=kw.get('trace_kind'))
     cfg = gen_cfg(rnd, family=kw.get('family'), ne=kw.get('ne'), width=kw.get('width'), only_edges=kw.get('only_edges'),
                   cutoffs=kw.get('cutoffs', True), avoid_goingback=kw.get('avoid_goingback'))
-    return {'graph': g, 'trace': tr, 'cfg': cfg}
+    case = {'graph': g, 'trace': tr, 'cfg': cfg}
+    w = gen_warmup(case)
+    if w:
+        case['warmup'] = w
+    return case
 
 
 def best_final(matcher, idx=None):
@@ -232,5 +255,8 @@ def canon(matcher, res):
 
 
 def case_repr(case):
-    return {'graph': {str(k): [list(v[0]), list(map(str, v[1]))] for k, v in case['graph'].items()},
-            'trace': [list(p) for p in case['trace']], 'cfg': case['cfg']}
+    r = {'graph': {str(k): [list(v[0]), list(map(str, v[1]))] for k, v in case['graph'].items()},
+         'trace': [list(p) for p in case['trace']], 'cfg': case['cfg']}
+    if case.get('warmup'):
+        r['matched_before_on_the_same_matcher'] = [list(p) for p in case['warmup']]
+    return r
